@@ -63,6 +63,7 @@ class State:
         self.rebound = set()    # list fields assigned a fresh list object in this function
         self.rebindcnt = {}     # list field -> number of times it was bound to another list object
         self.aliasof = {}       # local name -> location of the list / dict field whose OBJECT the local denotes
+        self.aliasep = {}       # local name -> (container key, structural epoch) for aliases of an ELEMENT of a list field
 
     def fork(self):
         s = State.__new__(State)
@@ -79,6 +80,7 @@ class State:
         s.rebound = set(self.rebound)
         s.rebindcnt = dict(self.rebindcnt)
         s.aliasof = dict(self.aliasof)
+        s.aliasep = dict(self.aliasep)
         s.fs = self.fs
         return s
 
@@ -234,6 +236,7 @@ class Exec:
         if k == "var":
             st.env[loc[1]] = v
             st.aliasof.pop(loc[1], None)
+            st.aliasep.pop(loc[1], None)
             if structural:
                 st.epochs[loc] = st.epochs.get(loc, 0) + 1
         elif k == "obj":
@@ -266,11 +269,20 @@ class Exec:
         else:
             raise Unsupported(f"bad location {loc}")
 
+    def alias_loc(self, st, n):
+        loc = st.aliasof[n]
+        if loc[0] == "stale":
+            raise Unsupported(f"local {n} denotes a list object that a callee replaced in its field")
+        ep = st.aliasep.get(n)
+        if ep is not None and st.epochs.get(ep[0], 0) != ep[1]:
+            raise Unsupported(f"local {n} denotes an element of a list that was structurally modified afterwards")
+        return loc
+
     def detach_aliases(self, st, loc, stale=False):
         """the field at `loc` is about to be bound to ANOTHER list object: locals that denote the old object keep its
         content as of now (stale=True: a callee did it, the old object's content is unknown)"""
         for n, l in list(st.aliasof.items()):
-            if l == loc:
+            if l == loc or (l[0] == "elem" and l[1] == loc):
                 if stale:
                     st.aliasof[n] = ("stale",)
                 else:
@@ -524,9 +536,7 @@ class Exec:
         n = node.id
         if n in st.aliasof and n in st.env:
             # a local bound to the list / dict OBJECT held in a field: reads see the field's current content
-            loc = st.aliasof[n]
-            if loc[0] == "stale":
-                raise Unsupported(f"local {n} denotes a list object that a callee replaced in its field")
+            loc = self.alias_loc(st, n)
             v = self.read(st, loc)
             if isinstance(v, VSeq):
                 v = VSeq(v.comps, v.ln, v.et, v.kind)
@@ -1230,9 +1240,7 @@ class Exec:
             if isinstance(v, VRef):
                 return v.loc
             if node.id in st.aliasof and node.id in st.env:
-                if st.aliasof[node.id][0] == "stale":
-                    raise Unsupported(f"local {node.id} denotes a list object that a callee replaced in its field")
-                return st.aliasof[node.id]
+                return self.alias_loc(st, node.id)
             if node.id in st.env:
                 return ("var", node.id)
             raise Unsupported(f"no location for name {node.id}")
